@@ -68,8 +68,16 @@ func main() {
 				in = append(in, b...)
 			}
 		}
-		for s.HasPendingEvent() {
-			s.PollEvent()
+		for k := 0; k < 16 && s.HasPendingEvent(); k++ { // bounded, and never stuck in a poll (C05 is checked elsewhere)
+			got := make(chan struct{})
+			go func() { s.PollEvent(); close(got) }()
+			select {
+			case <-got:
+			case <-time.After(2 * time.Second):
+				s.PostEvent(tcell.NewEventInterrupt(nil))
+				<-got
+				k = 16
+			}
 		}
 		tty.Inject(in)
 		var got []rune
